@@ -1,0 +1,163 @@
+//! Verification hooks. Only compiled with `--cfg metrics_verif`; never part of a normal build.
+//!
+//! Two small facilities used by an external checking harness:
+//!
+//! * a **trace**: the transport thread reports one [`Record`] per step of its event loop (what it
+//!   ingested, accepted, enqueued, dropped, tried to write and what the socket answered) to a
+//!   process-wide sink.  Every record is tagged with the listener's port so that several
+//!   exporters in one process can be told apart.
+//! * **fault injection**: the harness can force the next `write` calls on one connection to
+//!   accept only `k` bytes, or to fail with `WouldBlock` / `Interrupted`, which makes the
+//!   partial-write paths of `drive_connection` deterministic instead of depending on socket
+//!   buffer sizes.
+//!
+//! Nothing here changes what the exporter does when no sink is installed and no fault is queued.
+#![allow(missing_docs)]
+
+use std::cell::Cell;
+use std::collections::{HashMap, HashSet, VecDeque};
+use std::io::{self, Write};
+use std::net::SocketAddr;
+use std::sync::{Arc, Mutex, RwLock};
+
+/// What a `write` on a client connection returned.
+#[derive(Debug, Clone, PartialEq, Eq)]
+pub enum WriteOutcome {
+    Ok(usize),
+    WouldBlock,
+    Interrupted,
+    Err(io::ErrorKind),
+}
+
+/// One step of the transport loop.
+#[derive(Debug, Clone, PartialEq, Eq)]
+pub enum Record {
+    /// `run_transport` finished its initialisation and is about to enter the event loop.
+    Start,
+    /// Every event of the previous poll batch has been handled; the thread is about to poll again.
+    Idle,
+    /// State of the gate seen by emitters; emitted before every poll event is handled, after
+    /// every accepted connection and after the last event of a poll batch.
+    Snapshot { client_count: usize, should_send: bool },
+    /// The waker branch starts.
+    Wake,
+    /// One message was taken from the channel.
+    Recv,
+    /// A metadata message was ingested; `frame` is the encoding a client accepted now would get.
+    IngestMetadata { frame: Vec<u8> },
+    /// The buffered metric frames are about to be fanned out to every client.
+    Fanout { frames: Vec<Vec<u8>> },
+    /// A connection was accepted and registered under `token`.
+    Accept { token: usize, peer: Option<SocketAddr> },
+    /// A whole frame was appended to the client's queue.
+    Enqueue { token: usize, frame: Vec<u8> },
+    /// `count` frames were removed from the front of the client's queue to make room.
+    DropOldest { token: usize, count: usize },
+    /// `drive_connection` is about to be called for `token`.
+    Drive { token: usize },
+    /// `drive_connection` returned.
+    DriveEnd { token: usize, done: bool, wbuf: Option<usize>, msgs: usize },
+    /// `write` is about to be called with `buf`.
+    WriteAttempt { token: usize, buf: Vec<u8> },
+    /// ... and this is what it returned (`injected` = forced by [`inject`]).
+    WriteResult { token: usize, outcome: WriteOutcome, injected: bool },
+    /// The client was removed from the client table.
+    Disconnect { token: usize },
+    /// The transport thread returns because [`request_stop`] was called.
+    Stop,
+}
+
+/// A forced result for the next `write` on a connection.
+#[derive(Debug, Clone, Copy, PartialEq, Eq)]
+pub enum Fault {
+    /// really write, but at most this many bytes (`0` is treated as `1`)
+    Accept(usize),
+    WouldBlock,
+    Interrupted,
+}
+
+type Sink = dyn Fn(u16, Record) + Send + Sync;
+
+static SINK: RwLock<Option<Arc<Sink>>> = RwLock::new(None);
+static FAULTS: Mutex<Option<HashMap<(u16, usize), VecDeque<Fault>>>> = Mutex::new(None);
+static STOPS: Mutex<Option<HashSet<u16>>> = Mutex::new(None);
+
+thread_local! {
+    static CURRENT: Cell<(u16, usize)> = Cell::new((0, 0));
+}
+
+/// Installs (or removes) the process-wide trace sink.
+pub fn set_sink(sink: Option<Arc<Sink>>) {
+    *SINK.write().unwrap_or_else(|e| e.into_inner()) = sink;
+}
+
+/// Whether a sink is installed (lets call sites skip building expensive records).
+pub fn enabled() -> bool {
+    SINK.read().unwrap_or_else(|e| e.into_inner()).is_some()
+}
+
+pub(crate) fn emit(port: u16, record: Record) {
+    let sink = SINK.read().unwrap_or_else(|e| e.into_inner()).clone();
+    if let Some(sink) = sink {
+        sink(port, record);
+    }
+}
+
+/// Forces the result of a later `write` on connection `token` of the exporter listening on `port`.
+/// Faults queue up and are consumed one per `write` call.
+pub fn inject(port: u16, token: usize, fault: Fault) {
+    let mut g = FAULTS.lock().unwrap_or_else(|e| e.into_inner());
+    g.get_or_insert_with(HashMap::new).entry((port, token)).or_default().push_back(fault);
+}
+
+/// Forgets every queued fault of the exporter listening on `port`.
+pub fn clear_faults(port: u16) {
+    let mut g = FAULTS.lock().unwrap_or_else(|e| e.into_inner());
+    if let Some(m) = g.as_mut() {
+        m.retain(|(p, _), _| *p != port);
+    }
+}
+
+/// Asks the transport thread of the exporter listening on `port` to return the next time it wakes
+/// up (any `describe_*` call on its recorder wakes it).  All client connections are closed.
+pub fn request_stop(port: u16) {
+    let mut g = STOPS.lock().unwrap_or_else(|e| e.into_inner());
+    g.get_or_insert_with(HashSet::new).insert(port);
+}
+
+pub(crate) fn stop_requested(port: u16) -> bool {
+    let mut g = STOPS.lock().unwrap_or_else(|e| e.into_inner());
+    g.as_mut().map_or(false, |s| s.remove(&port))
+}
+
+/// Marks the connection the transport thread is about to drive.
+pub(crate) fn begin_drive(port: u16, token: usize) {
+    CURRENT.with(|c| c.set((port, token)));
+    emit(port, Record::Drive { token });
+}
+
+/// The `write` of `drive_connection`, traced and open to fault injection.
+pub(crate) fn write<W: Write>(conn: &mut W, buf: &[u8]) -> io::Result<usize> {
+    let (port, token) = CURRENT.with(|c| c.get());
+    if enabled() {
+        emit(port, Record::WriteAttempt { token, buf: buf.to_vec() });
+    }
+    let fault = {
+        let mut g = FAULTS.lock().unwrap_or_else(|e| e.into_inner());
+        g.as_mut().and_then(|m| m.get_mut(&(port, token))).and_then(|q| q.pop_front())
+    };
+    let res = match fault {
+        None => conn.write(buf),
+        Some(Fault::Accept(k)) => conn.write(&buf[..k.max(1).min(buf.len())]),
+        Some(Fault::WouldBlock) => Err(io::ErrorKind::WouldBlock.into()),
+        Some(Fault::Interrupted) => Err(io::ErrorKind::Interrupted.into()),
+    };
+    let outcome = match &res {
+        Ok(n) => WriteOutcome::Ok(*n),
+        Err(e) if e.kind() == io::ErrorKind::WouldBlock => WriteOutcome::WouldBlock,
+        Err(e) if e.kind() == io::ErrorKind::Interrupted => WriteOutcome::Interrupted,
+        Err(e) => WriteOutcome::Err(e.kind()),
+    };
+    emit(port, Record::WriteResult { token, outcome, injected: fault.is_some() });
+    res
+}
